@@ -139,6 +139,9 @@ pub struct Plan {
     /// leave address-space randomisation on (off by default)
     #[serde(default)]
     pub aslr: bool,
+    /// every write to stderr fails with this errno (0 = off)
+    #[serde(default)]
+    pub stderr_errno: i32,
 }
 
 impl Plan {
@@ -154,6 +157,7 @@ impl Plan {
             dirseed: 0,
             maxevents: 100000,
             aslr: false,
+            stderr_errno: 0,
         }
     }
 
@@ -184,6 +188,9 @@ impl Plan {
         }
         if self.dirseed != 0 {
             s.push_str(&format!("dirseed {}\n", self.dirseed));
+        }
+        if self.stderr_errno > 0 {
+            s.push_str(&format!("stderrfail {}\n", self.stderr_errno));
         }
         for f in &self.faults {
             s.push_str(&format!("fault {} {} {} {}\n", f.call, f.errno, f.occurrence, f.suffix));
